@@ -40,7 +40,7 @@ def run(prog, chk):
     for c in conds:
         okarm[c.id] = "T" if unparse(c.ast).endswith("is None") else "F"
     g = lambda s, lab, d: s in okarm and lab == okarm[s]
-    ok = bool(conds) and fl.dominated([disp[0][0]], guard_edge=g) and fl.dominated([disp[0][0]], guard_nodes=[gate[0][0]])
+    ok = bool(conds) and fl.dominated([disp[0][0]], guard_edge=g) and fl.dominated([disp[0][0]], guard_nodes=[gate[0][0]], complete=True)
     ok = ok and args == ["ptype", "m"] and dargs == ["m"] and unparse(disp[0][1].func.slice) == "ptype"
     # the gate result is the one tested: single reaching def
     for c in conds:
